@@ -32,7 +32,7 @@ def run(ctx: Ctx):
     user = f.params[0]
     cfg = cfg_of(f.node)
     gv = GuardView(cfg)
-    sites = [s for s in result_sites(f) if not isinstance(s.arg("solution"), ast.List)]
+    sites = [s for s in result_sites(f) if isinstance(s.arg("solution"), ast.Name)]
     ctx.require(len(sites) == 1 and isinstance(sites[0].arg("solution"), ast.Name) and isinstance(sites[0].arg("objective"), ast.Name), "main Result(assignment, total_cost, ..) publication not found")
     asg, obj = sites[0].arg("solution").id, sites[0].arg("objective").id
 
@@ -129,7 +129,7 @@ def run(ctx: Ctx):
     _need(ctx, "C10-O6", "R16 PAIRED-EFFECTS", f, "the dual step raises the potentials of the marked columns' rows and lowers those columns; unmarked columns only lose slack", ["for j in range(n + 1):\n                if used[j]:\n                    row_potential[col_match[j]] += delta\n                    col_potential[j] -= delta\n                else:\n                    min_slack[j] -= delta"])
     _need(ctx, "C10-O6", "R16 PAIRED-EFFECTS", f, "the search ends at a free column; the matching is flipped along the recorded path back to column 0", ["while current_col != 0:\n            prev_col = augment_path[current_col]\n            col_match[current_col] = col_match[prev_col]\n            current_col = prev_col"])
     _need(ctx, "C10-O6", "R18 table", f, "potentials, match table and path table cover the n columns plus the virtual column 0", ["row_potential = [0.0] * (n + 1)\n    col_potential = [0.0] * (n + 1)\n    col_match = [0] * (n + 1)\n    augment_path = [0] * (n + 1)"])
-    _need(ctx, "C10-O6", "R1 STATUS-GUARD", f, "an empty matrix (no rows or no columns) gives the empty assignment", ["if not cost_matrix or not cost_matrix[0]:\n        return Result([], 0.0, 0, 0)", "n_rows = len(cost_matrix)\n    n_cols = len(cost_matrix[0])"])
+    _need(ctx, "C10-O6", "R1 STATUS-GUARD", f, "a matrix without rows or without columns leaves every row (if any) unassigned: one -1 per row", ["if not cost_matrix or not cost_matrix[0]:\n        return Result([-1] * len(cost_matrix), 0.0, 0, 0)", "n_rows = len(cost_matrix)\n    n_cols = len(cost_matrix[0])"])
     generic_sweeps(ctx)
 
 
@@ -249,7 +249,13 @@ def _t_rename(tree):
     M.rename_local(g, "matrix", "work")
 
 
+def _v_zero_columns_empty_assignment(tree):
+    g = M.find_func(tree, "solve_hungarian")
+    M.replace_expr(g, lambda e: M.src_is(e, "[-1] * len(cost_matrix)"), M.expr("[]"))
+
+
 VARIANTS = [
+    M.Variant("a matrix without columns gives the empty assignment instead of one -1 per row (original defect)", HU, _v_zero_columns_empty_assignment, "C10-O6"),
     M.Variant("objective summed from the padded/reflected working copy", HU, _v_objective_from_working, "C10-O1"),
     M.Variant("reflection applied when minimizing too", HU, _v_reflect_always, "C10-O3"),
     M.Variant("dummy columns leak into the assignment", HU, _v_dummy_cols_kept, "C10-O2"),
